@@ -69,3 +69,25 @@ def boot(repo=None):
         sys.path.insert(0, repo)
     loader.install()
     install()
+    _reset_rope_process_state_per_path()
+
+
+_RESET_INSTALLED = []
+
+
+def _reset_rope_process_state_per_path():
+    """rope keeps one piece of process-wide state that enters generated text: the counter behind
+    inline._DefinitionGenerator.unique_prefix ('__0__', '__1__', ...).  A path that is re-executed
+    must see the same value as its first execution, so the counter is re-armed at every path start:
+    every path models the first conflicting inline of a session (the prefix is then '__0__')."""
+    if _RESET_INSTALLED:
+        return
+    _RESET_INSTALLED.append(True)
+    from . import core
+
+    def rearm():
+        mod = sys.modules.get("rope.refactor.inline")
+        if mod is not None:
+            mod._DefinitionGenerator.unique_prefix = mod.unique_prefix()
+
+    core.PATH_START_HOOKS.append(rearm)
